@@ -190,6 +190,8 @@ Record ctx_facts (c : ctx_table) : Prop := {
   f_memo_target : forall m, In m (map snd (ct_memo c)) -> mem m (ct_registers c) = true;
   f_alias : forall n, In n (accepted c) -> ok_alias c n = true;
   f_valid : forall n, In n (accepted c) -> ok_valid c n = true;
+  f_groups_disj : forall n, In n (names_of (ct_groups c)) ->
+                  match find_arm n (ct_groups c) with Some b => is_some (disj_alts b) | None => true end = true;
   f_groups : forall n, In n (names_of (ct_groups c)) -> is_some (memoize c n) = true;
   f_sp : ok_special c (ct_sp_acc c) (ct_sp_name c) = true;
   f_ip : ok_special c (ct_ip_acc c) (ct_ip_name c) = true;
@@ -229,6 +231,7 @@ Proof.
   apply app_eq_nil in H. destruct H as [H4 H].
   apply app_eq_nil in H. destruct H as [H5 H].
   apply app_eq_nil in H. destruct H as [H6 H].
+  apply app_eq_nil in H. destruct H as [H6b H].
   apply app_eq_nil in H. destruct H as [H7 H].
   apply app_eq_nil in H. destruct H as [H8 H].
   apply app_eq_nil in H. destruct H as [H9 H].
@@ -260,6 +263,7 @@ Proof.
   - exact (diag_nil _ _ _ _ H4).
   - exact (diag_nil _ _ _ _ H5).
   - exact (diag_nil _ _ _ _ H6).
+  - exact (diag_nil _ _ _ _ H6b).
   - exact (diag_nil _ _ _ _ H7).
   - exact (diag_nil _ _ _ _ H8 _ (or_introl eq_refl)).
   - exact (diag_nil _ _ _ _ H9 _ (or_introl eq_refl)).
@@ -318,10 +322,22 @@ Hypothesis F : ctx_facts c.
 (* the generated conditions are the plain calls *)
 Lemma is_valid_all : forall n, is_valid c n VAll = is_some (memoize c n).
 Proof. intro n. cbn [is_valid]. apply (plain_bvar_pure _ _ (f_valid_all c F)). Qed.
+Lemma disj_alts_bset : forall n s b l, disj_alts b = Some l -> bset n s b = existsb (fun a => mem a s) l.
+Proof.
+  intros n s b. induction b; intros l H; cbn [disj_alts] in H; try discriminate.
+  - cbn [bset]. destruct (strip_prefix has_prefix x) as [a|] eqn:E; [|discriminate]. inversion H; subst l.
+    destruct (name_eqb x v_contains) eqn:Q.
+    + apply name_eqb_eq in Q. subst x. vm_compute in E. discriminate.
+    + cbn [existsb]. rewrite orb_false_r. reflexivity.
+  - destruct (disj_alts b1) as [l1|]; [|discriminate]. destruct (disj_alts b2) as [l2|]; [|discriminate].
+    inversion H; subst l. cbn [bset]. rewrite existsb_app, (IHb1 l1 eq_refl), (IHb2 l2 eq_refl). reflexivity.
+Qed.
 Lemma is_valid_some : forall n s, is_valid c n (VSome s) = existsb (fun a => mem a s) (alts_of c n).
 Proof.
-  intros n s. cbn [is_valid]. unfold alts_of. destruct (find_arm n (ct_groups c)); [reflexivity|].
-  rewrite (plain_bvar_pure _ _ (f_valid_default c F)). cbn [existsb]. rewrite orb_false_r. reflexivity.
+  intros n s. cbn [is_valid]. unfold alts_of. destruct (find_arm n (ct_groups c)) as [b|] eqn:E.
+  - pose proof (f_groups_disj c F n (find_arm_In _ _ _ _ E)) as D. rewrite E in D.
+    apply is_some_true in D. destruct D as [l Hl]. rewrite Hl. exact (disj_alts_bset n s b l Hl).
+  - rewrite (plain_bvar_pure _ _ (f_valid_default c F)). cbn [existsb]. rewrite orb_false_r. reflexivity.
 Qed.
 Lemma get_register_unfold : forall rf n v,
   get_register c rf n v =
